@@ -1,13 +1,133 @@
-"""Engine B (loomwake) runner - placeholder until the engine is wired in."""
+"""Engine B (loomwake): loom exploration of thread interleavings of the waker protocol (DESIGN.md §4)."""
+import hashlib
+import json
+import os
+import subprocess
+import time
+from concurrent.futures import ThreadPoolExecutor
+
+ROOT = os.path.dirname(os.path.dirname(os.path.abspath(__file__)))
+ENGINE = os.path.join(ROOT, "engines", "loomwake")
+TARGET = os.path.join(os.environ.get("VERIF_BUILD_DIR") or os.path.join(ROOT, ".build"), "loom")
+OUT = os.environ.get("VERIF_OUT_DIR") or ROOT
+REPO_OVERRIDE = os.environ.get("FC_REPO_OVERRIDE")
+BIN = os.path.join(TARGET, "release", "loomwake")
+ENV = dict(os.environ, CARGO_NET_OFFLINE="true", RUSTFLAGS="--cfg fc_verif_loom", CARGO_TARGET_DIR=TARGET)
 
 
 def build(log):
+    cmd = ["cargo", "build", "--release", "--offline", "-q"]
+    if REPO_OVERRIDE:
+        cmd += ["--config", 'paths=["%s"]' % REPO_OVERRIDE]
+    p = subprocess.run(cmd, cwd=ENGINE, env=ENV, stdout=subprocess.PIPE, stderr=subprocess.STDOUT, text=True)
+    if p.returncode != 0:
+        log("loomwake build failed:\n" + p.stdout[-6000:])
+        return False
     return True
 
 
+def scenarios():
+    out = subprocess.run([BIN, "--list"], stdout=subprocess.PIPE, text=True).stdout.split()
+    return out
+
+
+def jobs_for(tier):
+    """(scenario, extra args, timeout)"""
+    js = []
+    for s in scenarios():
+        if tier == "quick":
+            for sp in (0, 1):
+                for wl in (False, True):
+                    js.append((s, ["--bound", "2", "--spurious", str(sp)] + (["--wake-locked"] if wl else []), 120))
+            js.append((s, ["--bound", "3", "--spurious", "1"], 120))
+        else:
+            for sp in (0, 1, 2):
+                for wl in (False, True):
+                    js.append((s, ["--bound", "3", "--spurious", str(sp)] + (["--wake-locked"] if wl else []), 900))
+            js.append((s, ["--bound", "4", "--spurious", "1"], 1800))
+            js.append((s, ["--unbounded", "--spurious", "1", "--max-branches", "1000000"], 1500))
+    return js
+
+
+def run_one(job):
+    s, args, tmo = job
+    t0 = time.time()
+    try:
+        p = subprocess.run([BIN, s] + args, stdout=subprocess.PIPE, stderr=subprocess.PIPE, text=True, timeout=tmo)
+        rc, out, err = p.returncode, p.stdout, p.stderr
+    except subprocess.TimeoutExpired:
+        return {"scenario": s, "args": args, "status": "timeout", "wall_s": time.time() - t0}
+    if rc == 0:
+        try:
+            j = json.loads(out.strip().splitlines()[-1])
+            return {"scenario": s, "args": args, "status": "ok", "iterations": j["iterations"], "wall_s": j["wall_s"]}
+        except Exception:
+            return {"scenario": s, "args": args, "status": "machinery", "detail": out[-500:] + err[-500:]}
+    # loom panicked: a deadlock (lost wake-up or lock cycle), a failed assertion or a panic in the crate
+    head = "\n".join(l for l in err.splitlines() if "panicked" in l or "deadlock" in l.lower() or "assert" in l.lower())[:1500]
+    return {"scenario": s, "args": args, "status": "fail", "detail": head or err[-1500:], "rc": rc}
+
+
+def make_replay(r):
+    os.makedirs(os.path.join(OUT, "replays"), exist_ok=True)
+    h = hashlib.sha1((r["scenario"] + " ".join(r["args"])).encode()).hexdigest()[:10]
+    cp = os.path.join(OUT, "replays", "C01-loom-%s-%s.checkpoint.json" % (r["scenario"], h))
+    if os.path.exists(cp):
+        os.remove(cp)
+    # deterministic exploration: run again with a checkpoint file; it is left at the failing execution
+    try:
+        subprocess.run([BIN, r["scenario"]] + r["args"] + ["--checkpoint", cp], stdout=subprocess.DEVNULL, stderr=subprocess.DEVNULL, timeout=1800)
+    except subprocess.TimeoutExpired:
+        pass
+    path = os.path.join(OUT, "replays", "C01-loom-%s-%s.json" % (r["scenario"], h))
+    json.dump({"engine": "loomwake", "property": "C01", "scenario": r["scenario"], "args": r["args"], "checkpoint": cp if os.path.exists(cp) else None,
+               "verdict": r["detail"]}, open(path, "w"), indent=1)
+    return path
+
+
 def run(plan, tier, log):
-    return {"coverage": {}, "violations": [], "machinery": [], "complete": True}
+    res = {"coverage": {}, "violations": [], "machinery": [], "complete": True}
+    if not build(log):
+        res["machinery"].append("loomwake did not build (the crate under test must compile with --cfg fc_verif_loom)")
+        return res
+    js = jobs_for(tier)
+    with ThreadPoolExecutor(max_workers=16) as ex:
+        rs = list(ex.map(run_one, js))
+    iters = 0
+    rows = []
+    for r in rs:
+        if r["status"] == "ok":
+            iters += r["iterations"]
+            rows.append({"scenario": r["scenario"], "args": " ".join(r["args"]), "iterations": r["iterations"], "wall_s": r["wall_s"]})
+        elif r["status"] == "timeout":
+            if "--unbounded" in r["args"] or "4" in r["args"]:
+                res["complete"] = False
+                res["cap"] = "unbounded / bound-4 exploration of %s hit its wall-clock cap (bounded explorations completed)" % r["scenario"]
+                rows.append({"scenario": r["scenario"], "args": " ".join(r["args"]), "iterations": None, "status": "wall-clock cap"})
+            else:
+                res["machinery"].append("loomwake %s %s timed out" % (r["scenario"], " ".join(r["args"])))
+        elif r["status"] == "machinery":
+            res["machinery"].append("loomwake %s: %s" % (r["scenario"], r["detail"]))
+        else:
+            path = make_replay(r)
+            res["violations"].append({"item": "loom scenario %s %s" % (r["scenario"], " ".join(r["args"])), "msg": r["detail"], "replay": path})
+    res["coverage"] = {"iterations": iters, "scenarios": len({r["scenario"] for r in rs}), "runs": rows,
+                       "note": "iterations = complete thread interleavings executed by loom (DPOR, preemption bound per run)"}
+    return res
 
 
 def replay(rec, log):
-    return 2
+    if not build(log):
+        return 2
+    args = [BIN, rec["scenario"]] + rec["args"]
+    if rec.get("checkpoint") and os.path.exists(rec["checkpoint"]):
+        # work on a copy: loom rewrites the checkpoint file while it runs
+        tmp = rec["checkpoint"] + ".run"
+        open(tmp, "w").write(open(rec["checkpoint"]).read())
+        args += ["--checkpoint", tmp]
+    p = subprocess.run(args, stdout=subprocess.PIPE, stderr=subprocess.PIPE, text=True)
+    if p.returncode != 0:
+        print(p.stderr[-2000:])
+        print("VIOLATION property=C01 replay=%s" % rec.get("_path", ""))
+        return 1
+    return 0
